@@ -737,4 +737,369 @@ def runOps (q : Quirks) (base : Env) : List HOp → RegState → List HObs × Re
     let (os, R'') := runOps q base ops R'
     (o :: os, R'')
 
+/-! ### The dispatch of `to_json` / `from_json` as DATA (second tie of C18: regenerated from the source on every run)
+
+Module-level `to_json(obj)` and the head of `SubclassJSONSerializer.from_json(data)` are *decision lists*: a sequence of
+`if <test on the runtime type of the argument>: return <action>` statements, the first test that holds decides.
+`Rule` / `Tables` describe them as first-order data over value KINDS; `dispatchK` evaluates a decision list on a kind
+(it knows Python's `isinstance` lattice: `bool` is an `int`), `toJsonT` / `fromJsonT` are interpreters of whole tables
+on values, and `tables` is the table of the code as it is. `harness/translate/c18_translate.py` rebuilds the table from
+the AST of /repo's current `json_serializer.py` (+ `utils.get_full_class_name`); the kernel re-checks
+`Translated.tables.dispatch = tables.dispatch` and `RoundTrips Translated.tables`. -/
+
+/-- the Python types the tests of `to_json` / `from_json` mention -/
+inductive PyType where
+  | noneType | bool | int | float | str | list | tuple | set | dict
+  | serializer   -- `SubclassJSONSerializer`
+  deriving Repr, DecidableEq
+
+/-- what the argument IS at run time (as far as a test on its type can tell) -/
+inductive Kind where
+  | none | bool | int
+  | intSub     -- instance of a proper subclass of `int` other than `bool` (IntEnum)
+  | float | str
+  | strSub     -- instance of a proper subclass of `str` (StrEnum)
+  | list | tuple | set | dict
+  | serObj     -- instance of a `SubclassJSONSerializer` subclass (the class itself not registered)
+  | serRegObj  -- instance of a `SubclassJSONSerializer` subclass that is ALSO registered in the type registry
+  | regObj     -- instance of a class that is itself registered in the type registry (exact type)
+  | regSubObj  -- instance of an unregistered subclass of a registered class
+  | other      -- anything else
+  deriving Repr, DecidableEq
+
+def Kind.all : List Kind :=
+  [.none, .bool, .int, .intSub, .float, .str, .strSub, .list, .tuple, .set, .dict, .serObj, .serRegObj, .regObj, .regSubObj,
+   .other]
+
+/-- `isinstance(x, t)` -/
+def instOf : Kind → PyType → Bool
+  | .none, .noneType => true
+  | .bool, .bool => true
+  | .bool, .int => true          -- `bool` is a subclass of `int`
+  | .int, .int => true
+  | .intSub, .int => true
+  | .float, .float => true
+  | .str, .str => true
+  | .strSub, .str => true
+  | .list, .list => true
+  | .tuple, .tuple => true
+  | .set, .set => true
+  | .dict, .dict => true
+  | .serObj, .serializer => true
+  | .serRegObj, .serializer => true
+  | _, _ => false
+
+/-- `type(x) is t` -/
+def exactOf : Kind → PyType → Bool
+  | .none, .noneType => true
+  | .bool, .bool => true
+  | .int, .int => true
+  | .float, .float => true
+  | .str, .str => true
+  | .list, .list => true
+  | .tuple, .tuple => true
+  | .set, .set => true
+  | .dict, .dict => true
+  | _, _ => false
+
+/-- how `JSONSerializableTypeRegistry.get_serializer / get_deserializer` find an entry for a class -/
+inductive Lookup where
+  | exact             -- `self._serializers.get(type_class)`: the class itself is a key
+  | mro               -- first class of `type_class.__mro__` that is a key
+  | isinstanceOrder   -- first key, in registration order, that `type_class` is a subclass of
+  deriving Repr, DecidableEq
+
+inductive Test where
+  | isinstance (ts : List PyType)   -- `isinstance(x, (t₁, …))`
+  | typeIs (ts : List PyType)       -- `type(x) in (t₁, …)` / `type(x) is t` / `x is None`
+  | registered                      -- the registry lookup for `type(x)` finds a (de)serializer
+  | always
+  | and (a b : Test)
+  | or (a b : Test)
+  | not (a : Test)
+  deriving Repr
+
+def Test.holds (l : Lookup) : Test → Kind → Bool
+  | .isinstance ts, k => ts.any (instOf k)
+  | .typeIs ts, k => ts.any (exactOf k)
+  | .registered, k => k == .regObj || k == .serRegObj || (l != .exact && k == .regSubObj)
+  | .always, _ => true
+  | .and a b, k => a.holds l k && b.holds l k
+  | .or a b, k => a.holds l k || b.holds l k
+  | .not a, k => !a.holds l k
+
+inductive Action where
+  | self                    -- `return x`
+  | mapRec                  -- `return [f(item) for item in x]` with `f` the function itself
+  | method                  -- `return x.to_json()`
+  | registry                -- `return <registered serializer>(x)`
+  | resolve                 -- (from_json) go on to the tag resolution (the stage table of C19)
+  | raiseNotSerializable    -- `raise ClassNotSerializableError(type(x))`
+  | coerce (t : PyType)     -- `return t(x)`
+  | fallOff                 -- no rule applies: the function returns `None`
+  deriving Repr, DecidableEq
+
+structure Rule where
+  test : Test
+  action : Action
+  deriving Repr
+
+/-- evaluate a decision list on a kind: the first rule whose test holds decides -/
+def dispatchK (l : Lookup) : List Rule → Kind → Action
+  | [], _ => .fallOff
+  | r :: rs, k => if r.test.holds l k then r.action else dispatchK l rs k
+
+/-- how the type tag is put together from the class (`get_full_class_name`) -/
+inductive NamePart where
+  | module | name | qualname
+  | lit (s : String)
+  deriving Repr, DecidableEq
+
+/-- a (serializer, deserializer) pair the module registers itself (`uuid.UUID`): the key each side keeps the payload
+under, and whether the serializer writes the tag of `type(obj)` with `get_full_class_name` -/
+structure Builtin where
+  cls : String
+  serKey : String
+  deserKey : String
+  tagOfType : Bool
+  deriving Repr, DecidableEq
+
+def Builtin.ok (b : Builtin) : Bool := b.serKey == b.deserKey && b.serKey != tagKey && b.tagOfType
+
+structure Tables where
+  /-- module-level `to_json` -/
+  toRules : List Rule
+  /-- head of `SubclassJSONSerializer.from_json` (the module-level `from_json` delegates to it) -/
+  fromRules : List Rule
+  /-- `SubclassJSONSerializer.to_json` writes `{JSON_TYPE_NAME: <these parts of self.__class__ concatenated>}` -/
+  tag : List NamePart
+  /-- the rest of `from_json`: tag resolution (split by `rsplit(".", 1)`, import, getattr, dispatch) -/
+  stages : StageTable
+  serLookup : Lookup
+  deserLookup : Lookup
+  builtins : List Builtin
+  deriving Repr
+
+/-- all a table says, as comparable data: the action for EVERY kind (in the order of `Kind.all`) instead of the rule
+lists — two rule lists that decide every kind alike are the same dispatch -/
+structure Dispatch where
+  toActs : List Action
+  fromActs : List Action
+  tag : List NamePart
+  stages : StageTable
+  serLookup : Lookup
+  deserLookup : Lookup
+  builtins : List Builtin
+  deriving Repr, DecidableEq
+
+def Tables.toSel (T : Tables) : Kind → Action := dispatchK T.serLookup T.toRules
+def Tables.fromSel (T : Tables) : Kind → Action := dispatchK T.deserLookup T.fromRules
+
+def Tables.dispatch (T : Tables) : Dispatch :=
+  ⟨Kind.all.map T.toSel, Kind.all.map T.fromSel, T.tag, T.stages, T.serLookup, T.deserLookup, T.builtins⟩
+
+/-- `leaf_types = (int, float, str, bool, NoneType)` -/
+def leafTypes : List PyType := [.int, .float, .str, .bool, .noneType]
+/-- `list_like_classes = (list, tuple, set)` -/
+def listLike : List PyType := [.list, .tuple, .set]
+/-- `cls.__module__ + "." + cls.__name__` -/
+def stdTag : List NamePart := [.module, .lit ".", .name]
+
+/-- the code as it is at this commit -/
+def tables : Tables where
+  toRules :=
+    [ ⟨.isinstance leafTypes, .self⟩,
+      ⟨.isinstance listLike, .mapRec⟩,
+      ⟨.isinstance [.serializer], .method⟩,
+      ⟨.registered, .registry⟩,
+      ⟨.always, .raiseNotSerializable⟩ ]
+  fromRules :=
+    [ ⟨.isinstance leafTypes, .self⟩,
+      ⟨.isinstance listLike, .mapRec⟩,
+      ⟨.always, .resolve⟩ ]
+  tag := stdTag
+  stages := stageTable
+  serLookup := .exact
+  deserLookup := .exact
+  builtins := [⟨"uuid.UUID", "value", "value", true⟩]
+
+/-! #### Interpreters of tables on values -/
+
+/-- the tag a `SubclassJSONSerializer` instance writes (`none`: `__qualname__` is not part of the class model) -/
+def composeTag : List NamePart → Cls → Option String
+  | [], _ => some ""
+  | p :: ps, c =>
+    match (match p with
+      | .module => some c.module
+      | .name => some c.name
+      | .qualname => none
+      | .lit s => some s), composeTag ps c with
+    | some a, some b => some (a ++ b)
+    | _, _ => none
+
+/-- a serializer is registered for exactly this class -/
+def regExact (env : Env) (c : Cls) : Bool :=
+  match env.getattr c.module c.name with
+  | .cls c' _ reg _ => c' == c && reg
+  | _ => false
+
+inductive TErr where
+  | notSerializable   -- ClassNotSerializableError
+  | stuck             -- the table does something this interpreter has no semantics for on this value
+  deriving Repr, DecidableEq
+
+/-- an action that is not the one the value's constructor can carry out -/
+def offAction : Action → Except TErr Json
+  | .raiseNotSerializable => .error .notSerializable
+  | _ => .error .stuck
+
+mutual
+/-- run a to-side dispatch `sel` (a decision list evaluated per kind) on a value; `exact`: the registry lookup is the
+exact one (the only one with value-level semantics here) -/
+def toJsonWith (sel : Kind → Action) (tag : List NamePart) (exact : Bool) (env : Env) : PyVal → Except TErr Json
+  | .none => (match sel .none with | .self => .ok .null | a => offAction a)
+  | .bool b => (match sel .bool with | .self => .ok (.bool b) | a => offAction a)
+  | .int i => (match sel .int with | .self => .ok (.int i) | a => offAction a)
+  | .float x => (match sel .float with | .self => .ok (.float x) | a => offAction a)
+  | .str s => (match sel .str with | .self => .ok (.str s) | a => offAction a)
+  | .list xs =>
+    (match sel .list with
+     | .mapRec =>
+       (match toJsonListWith sel tag exact env xs with
+        | .ok ys => .ok (.arr ys)
+        | .error e => .error e)
+     | a => offAction a)
+  | .obj c fs =>
+    (match sel (if regExact env c then .serRegObj else .serObj) with
+     | .method =>
+       (match composeTag tag c with
+        | none => .error .stuck
+        | some t =>
+          match toJsonFieldsWith sel tag exact env fs with
+          | .ok gs => .ok (.obj ((tagKey, .str t) :: gs))
+          | .error e => .error e)
+     | a => offAction a)
+  | .ext c p =>
+    if regExact env c then
+      (match sel .regObj with
+       | .registry =>
+         if exact then .ok (.obj [(tagKey, .str c.fullName), (env.payloadKey c, .str p)]) else .error .stuck
+       | a => offAction a)
+    else
+      (match sel .other with
+       | .raiseNotSerializable => .error .notSerializable
+       | _ => .error .stuck)
+def toJsonListWith (sel : Kind → Action) (tag : List NamePart) (exact : Bool) (env : Env) :
+    List PyVal → Except TErr (List Json)
+  | [] => .ok []
+  | x :: xs =>
+    match toJsonWith sel tag exact env x with
+    | .error e => .error e
+    | .ok y =>
+      match toJsonListWith sel tag exact env xs with
+      | .ok ys => .ok (y :: ys)
+      | .error e => .error e
+def toJsonFieldsWith (sel : Kind → Action) (tag : List NamePart) (exact : Bool) (env : Env) :
+    List (String × PyVal) → Except TErr (List (String × Json))
+  | [] => .ok []
+  | (k, v) :: r =>
+    match toJsonWith sel tag exact env v with
+    | .error e => .error e
+    | .ok y =>
+      match toJsonFieldsWith sel tag exact env r with
+      | .ok ys => .ok ((k, y) :: ys)
+      | .error e => .error e
+end
+
+/-- `to_json` as the table says -/
+def toJsonT (T : Tables) (env : Env) (v : PyVal) : Except TErr Json :=
+  toJsonWith T.toSel T.tag (T.serLookup == .exact) env v
+
+mutual
+/-- run a from-side dispatch on a decoded JSON tree; errors: `some e` = what `fromJson` reports, `none` = stuck -/
+def fromJsonWith (sel : Kind → Action) (stages : StageTable) (exact : Bool) (env : Env) :
+    Json → Except (Option Err) PyVal
+  | .null => (match sel .none with | .self => .ok .none | _ => .error none)
+  | .bool b => (match sel .bool with | .self => .ok (.bool b) | _ => .error none)
+  | .int i => (match sel .int with | .self => .ok (.int i) | _ => .error none)
+  | .float x => (match sel .float with | .self => .ok (.float x) | _ => .error none)
+  | .str s => (match sel .str with | .self => .ok (.str s) | _ => .error none)
+  | .arr xs =>
+    (match sel .list with
+     | .mapRec =>
+       (match fromJsonListWith sel stages exact env xs with
+        | .ok ys => .ok (.list ys)
+        | .error e => .error e)
+     | _ => .error none)
+  | .obj kvs =>
+    (match sel .dict with
+     | .resolve =>
+       if exact then
+         (match interp stages env (lookup tagKey kvs) with
+          | none => .error none
+          | some (.err e) => .error (some (.doc e))
+          | some (.escape x) => .error (some (.escape x))
+          | some (.dispatch c .fromJson) =>
+            (match fromJsonFieldsWith sel stages exact env kvs with
+             | .ok fs => .ok (.obj c fs)
+             | .error e => .error e)
+          | some (.dispatch c .registry) =>
+            (match lookup (env.payloadKey c) kvs with
+             | some (.str p) => .ok (.ext c p)
+             | _ => .error (some .payload)))
+       else .error none
+     | _ => .error none)
+def fromJsonListWith (sel : Kind → Action) (stages : StageTable) (exact : Bool) (env : Env) :
+    List Json → Except (Option Err) (List PyVal)
+  | [] => .ok []
+  | x :: xs =>
+    match fromJsonWith sel stages exact env x with
+    | .error e => .error e
+    | .ok y =>
+      match fromJsonListWith sel stages exact env xs with
+      | .ok ys => .ok (y :: ys)
+      | .error e => .error e
+def fromJsonFieldsWith (sel : Kind → Action) (stages : StageTable) (exact : Bool) (env : Env) :
+    List (String × Json) → Except (Option Err) (List (String × PyVal))
+  | [] => .ok []
+  | (k, v) :: r =>
+    if k = tagKey then fromJsonFieldsWith sel stages exact env r
+    else
+      match fromJsonWith sel stages exact env v with
+      | .error e => .error e
+      | .ok y =>
+        match fromJsonFieldsWith sel stages exact env r with
+        | .ok ys => .ok ((k, y) :: ys)
+        | .error e => .error e
+end
+
+/-- `from_json` as the table says -/
+def fromJsonT (T : Tables) (env : Env) (j : Json) : Except (Option Err) PyVal :=
+  fromJsonWith T.fromSel T.stages (T.deserLookup == .exact) env j
+
+/-- the hand-written model's result in the interpreter's result type -/
+def liftErr {α : Type} : Except Err α → Except (Option Err) α
+  | .ok v => .ok v
+  | .error e => .error (some e)
+
+/-! #### The decidable well-formedness predicate of tables: enough for the round trip
+
+Weaker than equality with `tables`: only the kinds of the property's grammar are pinned (what a table does with tuples,
+sets, dicts, subclasses of leaf types, unregistered classes is free), any rule list with that dispatch will do, and the
+stage table may be the one of the code as it is or as it was found (the escaping exceptions of C19 are never reached
+from a serialised well-formed value). -/
+
+def goodTo (sel : Kind → Action) : Bool :=
+  sel .none == .self && sel .bool == .self && sel .int == .self && sel .float == .self && sel .str == .self &&
+  sel .list == .mapRec && sel .serObj == .method && sel .serRegObj == .method && sel .regObj == .registry
+
+def goodFrom (sel : Kind → Action) : Bool :=
+  sel .none == .self && sel .bool == .self && sel .int == .self && sel .float == .self && sel .str == .self &&
+  sel .list == .mapRec && sel .dict == .resolve
+
+def RoundTrips (T : Tables) : Bool :=
+  goodTo T.toSel && goodFrom T.fromSel && T.tag == stdTag &&
+  (T.stages == stageTable || T.stages == stageTableAsFound) &&
+  T.serLookup == .exact && T.deserLookup == .exact && T.builtins.all Builtin.ok
+
 end KrroodVerif.Json
